@@ -54,6 +54,8 @@ def gen_plan(seed, tier):
     p["n_constraints"] = r.choice([10, 25, 60])
   if r.random() < 0.3:
     desc["dups"] = r.randint(1, 6)        # identical rows at different indices
+  if unknown and r.random() < 0.35:
+    desc["neg_values"] = [-1, -2, -7]     # any negative label means "unknown"
   if name == "LSML_Supervised" and r.random() < 0.3:
     nc = p.get("n_constraints") or 20 * desc["classes"] ** 2
     p["weights"] = None   # placeholder: weights need the realised constraint count
